@@ -77,6 +77,12 @@ FIRE: List[Tuple[str, str, str, List[Tuple[str, str, str]]]] = [
     ("key-table-camel-only", "C19", "I3", [(I, "            for casing in (Casing.CAMEL, Casing.SNAKE):\n                by_key.setdefault", "            for casing in (Casing.CAMEL,):\n                by_key.setdefault")]),
     ("key-table-not-consulted", "C04", "I3", [(I, "            field_name = cls._betterproto.field_name_by_key.get(\n                key\n            ) or safe_snake_case(key)\n", "            field_name = safe_snake_case(key)\n")]),
     ("key-table-without-rstrip", "C19", "I3", [(I, "                by_key.setdefault(casing(field_name).rstrip(\"_\"), field_name)", "                by_key.setdefault(casing(field_name), field_name)")]),
+    ("map-wrapper-value-unwrapped", "C03", "P10", [(MD, "                        unwrap=False,\n", "                        unwrap=True,\n")]),
+    ("enum-prefix-find-anywhere", "C03", "I2", [(NM, "    if name.startswith(prefix) and name[len(prefix) :].strip(\"_\"):\n        name = name[len(prefix) :].strip(\"_\")", "    find = name.find(prefix)\n    if find != -1:\n        name = name[find + len(prefix) :].strip(\"_\")")]),
+    ("enum-distinctness-fallback-dropped", "C19", "I2", [(MD, "        if len({entry.name for entry in self.entries}) != len(self.entries):", "        if False:")]),
+    ("builtins-table-filled-at-render", "C18", "Y7", [(MD, "        self.builtins_types = {\n            pythonize_field_name(f.name) for f in getattr(self.proto_obj, \"field\", [])\n        } & set(dir(builtins))\n", ""), (MD, "        return f\"{name}{annotations} = {betterproto_field_type}\"", "        if self.py_name in dir(builtins):\n            self.parent.builtins_types.add(self.py_name)\n        return f\"{name}{annotations} = {betterproto_field_type}\"")]),
+    ("map-annotation-ignores-shadowing", "C03", "Y7", [(MD, "            f\"builtins.{py_type}\" if py_type in shadowed else py_type\n", "            py_type\n")]),
+    ("pydantic-enum-nonnegative", "C18", "Y8", [("src/betterproto/templates/template.py.j2", "        return core_schema.int_schema()", "        return core_schema.int_schema(ge=0)")]),
     ("mismatch-check-dropped", "C17", "M4", [(I, "            if not _wire_type_matches(parsed.wire_type, meta.proto_type, repeated):", "            if False:")]),
     ("packed-into-singular", "C17", "M4", [(I, "            repeated = proto_meta.default_gen[field_name] is list\n", "            repeated = True\n")]),
     ("empty-map-entry-dropped", "C01", "T4", [(I, "                            sk + sv,\n                            # An entry with default key and value is still an entry.\n                            serialize_empty=True,", "                            sk + sv,")]),
